@@ -12,7 +12,7 @@ KM_full == << << >>,
               <<R(<<"a">>, 0), R(<<"b">>, 0)>>,
               <<R(<<"*">>, 1)>>,
               <<R(<<"a">>, 1), A(<<"*", "*", "a">>, 2)>>,
-              <<R(<<"b,a", "*">>, 0), R(<<"~a">>, 2)>>,
+              <<R(<<"b,a", "b,\\a">>, 0), R(<<"~a">>, 2)>>,
               <<A(<<"*", "1">>, 0)>>,
               <<A(<<"*">>, 0)>>,
               <<A(<<"*", "1,0", "?">>, 0), A(<<"h", "*", "a", "b">>, 0)>>,
